@@ -25,9 +25,13 @@ in a child process on the installed torch (`probe_kernels`) and written into the
 file, so a torch upgrade that changes a kernel's behaviour changes TE/Gen/IndexSites.lean and
 the `decide`d theorems of TE/Props/C14.lean.
 
+A slice OBJECT (`w = slice(a, b)`; `buf[:, w]`, or `buf[:, slice(a, b)]`) is the slice it denotes (flow-sensitive:
+a re-bound name, or a name that is a slice on one branch only, is an ordinary index again; the bounds' sources are those
+at the point where the slice is built).
+
 Regenerates lean/TE/Gen/IndexSites.lean on every run (`generate`)."""
 from __future__ import annotations
-import ast, json, os, select, subprocess, sys, time
+import ast, copy, json, os, select, subprocess, sys, time
 from dataclasses import dataclass, field
 from pathlib import Path
 
@@ -194,6 +198,7 @@ class Analyzer(ast.NodeVisitor):
         self.env: dict[str, Origin] = {}
         self.summaries = summaries
         self.cursor = cursor          # attr -> modulus text (for methods of a class with a modular cursor)
+        self.slc: dict[str, ast.Slice] = {}   # local name -> the slice it was bound to (`w = slice(a, b)`), flow-sensitive like env
         for p in fi.params:
             if p != "self":
                 ann = self._annotation(p)
@@ -339,9 +344,55 @@ class Analyzer(ast.NodeVisitor):
         return CONST
 
     # ---------------------------------------------------------------- statements
+    def slice_object(self, e):
+        """`slice(b)` / `slice(a, b)` / `slice(a, b, c)` -> the ast.Slice it denotes | None"""
+        if isinstance(e, ast.Call) and isinstance(e.func, ast.Name) and e.func.id == "slice" and "slice" not in self.env \
+                and not e.keywords and 1 <= len(e.args) <= 3 and not any(isinstance(a, ast.Starred) for a in e.args):
+            def part(a):
+                if isinstance(a, ast.Constant) and a.value is None:
+                    return None
+                c = copy.copy(a)
+                c._origin = self.origin(a)      # noqa: SLF001 — where the bound comes from WHEN THE SLICE IS BUILT (not when it is used)
+                return c
+            parts = [part(a) for a in e.args]
+            lo, hi, st = (None, parts[0], None) if len(parts) == 1 else (parts + [None])[:3]
+            return ast.Slice(lower=lo, upper=hi, step=st)
+        return None
+
+    @staticmethod
+    def same_slice(x: ast.Slice, y: ast.Slice) -> bool:
+        if x is y:
+            return True
+        if ast.dump(x) != ast.dump(y):
+            return False
+        return all(getattr(p, "_origin", None) == getattr(q_, "_origin", None) for p, q_ in ((x.lower, y.lower), (x.upper, y.upper), (x.step, y.step)))
+
+    def as_slice(self, ix):
+        """an index element that is a slice OBJECT (a local bound to `slice(…)`, or the call itself) is the slice it denotes"""
+        if isinstance(ix, ast.Name) and self.slc.get(ix.id) is not None:
+            return self.slc[ix.id]
+        return self.slice_object(ix) or ix
+
+    @staticmethod
+    def merge_slc(a: dict, enva: dict, b: dict, envb: dict) -> dict:
+        """after a fork: the same slice on both sides survives; a slice bound on one side survives only if the name has NO
+        binding at all on the other side (it is then unbound there); anything else is unknown (None: an ordinary index)"""
+        out = {}
+        for k in set(a) | set(b):
+            if k in a and k in b:
+                x, y = a[k], b[k]
+                out[k] = x if x is not None and y is not None and Analyzer.same_slice(x, y) else None
+            elif k in a:
+                out[k] = a[k] if k not in envb else None
+            else:
+                out[k] = b[k] if k not in enva else None
+        return out
+
     def assign(self, target, o: Origin):
         if isinstance(target, ast.Name):
             self.env[target.id] = o
+            if target.id in self.slc:
+                self.slc[target.id] = None      # re-bound: no longer (known to be) a slice
         elif isinstance(target, (ast.Tuple, ast.List)):
             if o.pair and len(target.elts) == 2:
                 self.assign(target.elts[0], Origin(o.paths))
@@ -384,10 +435,13 @@ class Analyzer(ast.NodeVisitor):
         if isinstance(s, ast.Assign):
             self.scan(s.value)
             o = self.origin(s.value)
+            so = self.slice_object(s.value)
             for t in s.targets:
                 self.scan_target(t, "set")
                 self.assign(t, o)
                 self.store_into(t, s.value)
+                if so is not None and isinstance(t, ast.Name):
+                    self.slc[t.id] = so
         elif isinstance(s, ast.AnnAssign):
             if s.value is not None:
                 self.scan(s.value)
@@ -400,6 +454,8 @@ class Analyzer(ast.NodeVisitor):
             self.scan_target(s.target, "aug")
             self.store_into(s.target, s.value)
             if isinstance(s.target, ast.Name):
+                if s.target.id in self.slc:
+                    self.slc[s.target.id] = None
                 cur = self.env.get(s.target.id, CONST)
                 o = cur.union(self.origin(s.value))
                 self.env[s.target.id] = o.with_op("mod") if isinstance(s.op, ast.Mod) else Origin(o.paths, container=cur.container)
@@ -414,21 +470,26 @@ class Analyzer(ast.NodeVisitor):
                 self.assign(s.target.elts[1], Origin(self.origin(s.iter.args[0]).paths))
             else:
                 self.assign(s.target, Origin(it.paths))
-            before = dict(self.env)
-            self.block(s.body); self.block(s.body); self.block(s.orelse)
+            before, sbefore = dict(self.env), dict(self.slc)
+            self.block(s.body); self.slc = self.merge_slc(sbefore, before, self.slc, self.env)
+            self.block(s.body); self.block(s.orelse)
+            self.slc = self.merge_slc(sbefore, before, self.slc, self.env)
             self.env = self.merge_env(before, self.env)
         elif isinstance(s, ast.While):
-            before = dict(self.env)
-            self.scan(s.test); self.block(s.body); self.block(s.body); self.block(s.orelse)
+            before, sbefore = dict(self.env), dict(self.slc)
+            self.scan(s.test); self.block(s.body); self.slc = self.merge_slc(sbefore, before, self.slc, self.env)
+            self.block(s.body); self.block(s.orelse)
+            self.slc = self.merge_slc(sbefore, before, self.slc, self.env)
             self.env = self.merge_env(before, self.env)
         elif isinstance(s, ast.If):
             self.scan(s.test)
             self.note_check(s)
-            before = dict(self.env)
+            before, sbefore = dict(self.env), dict(self.slc)
             self.block(s.body)
-            after_body = self.env
-            self.env = dict(before)
+            after_body, safter_body = self.env, self.slc
+            self.env, self.slc = dict(before), dict(sbefore)
             self.block(s.orelse)
+            self.slc = self.merge_slc(safter_body, after_body, self.slc, self.env)
             self.env = self.merge_env(after_body, self.env)
         elif isinstance(s, (ast.With,)):
             self.block(s.body)
@@ -495,7 +556,7 @@ class Analyzer(ast.NodeVisitor):
 
     # ---------------------------------------------------------------- sites
     def add(self, node, kind, operand, bound):
-        o = self.origin(operand)
+        o = getattr(operand, "_origin", None) or self.origin(operand)
         if o.is_bool or not o.paths:
             return
         self.fi.sites.append(Site(self.fi.module.rel, self.fi.qual, node.lineno, kind, src(operand)[:80], o.describe(), bound[:80],
@@ -579,7 +640,7 @@ class Analyzer(ast.NodeVisitor):
         base = self.origin(node.value)
         if base.container == "dict":
             return
-        elts = node.slice.elts if isinstance(node.slice, ast.Tuple) else [node.slice]
+        elts = [self.as_slice(x) for x in (node.slice.elts if isinstance(node.slice, ast.Tuple) else [node.slice])]
         for pos, ix in enumerate(elts):
             if is_const_index(ix):
                 continue
